@@ -30,6 +30,10 @@ import (
 //             connection, block until Publish returned). Every operation is bracketed by rig.Seq and every
 //             handler logs entry and exit with the token carried in EventPayload.Data; the oracles read only
 //             that log (DESIGN.md C15).
+//             Every second case ends with a mutual-wait stage: the application handlers are subscribed anew in a
+//             drawn order and one event is published during which an EARLIER subscribed application handler stays
+//             inside HandleEvent until a LATER subscribed one has entered HandleEvent for the same event (c15Await;
+//             also the other way round, and all of them waiting for each other).
 // integrated: after a peer's discovery reply the application handler of DeviceChange/add must find the
 //             NodeManagement subscription call and the use-case read on that peer's tap already written.
 //
@@ -48,6 +52,7 @@ func init() {
 		ID:    "C15",
 		Floor: 120,
 		Rule: "bus: case = one generated history (sequential prologue, 1-4 concurrent publisher goroutines with 20-60 operations, sequential epilogue with unsubscribe-then-publish) plus one re-entrant action per (handler, event) slot, all drawn from the case PRNG; " +
+			"every second case ends with a mutual-wait stage (1-2 rounds): the application handlers are unsubscribed and subscribed anew in a drawn order (2 or 3 of them), then one event is published during which an earlier subscribed application handler stays inside HandleEvent until a later subscribed one has entered HandleEvent for the same event (bounded wait; first round: that, or all of them wait for all the others; second round also a later subscribed one waiting for an earlier one); " +
 			"non-trivial if at least one exactly-once pair, one zero pair (unsubscribed before the publication) and one re-entrant action inside a handler were judged. " +
 			"integrated: case = 1-3 peers announcing (concurrently in half of the cases), some after a reconnect; non-trivial if every DeviceChange/add reached the application handler and the two datagrams were compared. " +
 			"distinct = hash of operation kinds, targets, goroutine split and action slots.",
@@ -57,6 +62,7 @@ func init() {
 			"'not delivered' is decided after the process is back at its baseline goroutine count (every go HandleEvent has finished), never after a sleep; if that is not reached within the watchdog the case is inconclusive",
 			"publishing from inside a core-level handler is not generated (the stack never does it; Publish holds its handling mutex there)",
 			"a publisher or handler that does not return parks the case for the parent's hang monitor (hang@<frame>)",
+			"mutual-wait stage: 'application handlers run asynchronously' includes 'with respect to each other': the delivery of an event to one application handler does not wait for another application handler of the same event to return. A handler's wait for another handler's entry is bounded by 5 s with nothing else pending in the process (Publish has started the later handler's goroutine before it returned); the verdict needs the expiry AND the logged order 'the awaited handler entered only after the waiting one had left'",
 		},
 		Parts: []rig.Part{
 			{Name: "bus", Run: c15Bus, Procs: 4, Quiet: 50 * time.Second, Cases: func(t rig.Tier) int { return map[rig.Tier]int{rig.Quick: 300, rig.Thorough: 5000}[t] }},
@@ -144,7 +150,48 @@ type c15Case struct {
 	nextTok   int
 	reentrant map[string]int
 	connSeq   int64
+
+	// mutual-wait stage: the next top-level publication gets nextAwait; awaits is keyed by token id
+	nextAwait *c15Await
+	awaits    map[int]*c15Await
+	stage     []string
 }
+
+// c15Await: while handling ONE event, an application handler stays inside HandleEvent until other application
+// handlers have entered HandleEvent for the SAME event. Every application handler runs asynchronously, so the
+// delivery to one of them cannot depend on another one returning: every such wait succeeds at once. It is bounded
+// (c15AwaitBound) so that a bus that delivers to the application handlers one after the other shows up in the log
+// as "expired, and the awaited handler entered only after the waiting one had left". Modes: an EARLIER subscribed
+// handler waits for a LATER subscribed one; a later one for an earlier one (a bus may walk its list backwards);
+// mutual (every subscribed application handler announces its entry and waits for all the others).
+type c15Await struct {
+	mode    string
+	order   []int         // subscription order of the application handlers in this stage
+	waitFor map[int][]int // handler -> handlers whose entry it awaits inside HandleEvent
+	entered map[int]chan struct{}
+	once    map[int]*sync.Once
+	gaveUp  atomic.Bool // one wait expired: nobody waits any longer
+}
+
+func newC15Await(mode string, order []int) *c15Await {
+	aw := &c15Await{mode: mode, order: order, waitFor: map[int][]int{}, entered: map[int]chan struct{}{}, once: map[int]*sync.Once{}}
+	for _, h := range order {
+		aw.entered[h] = make(chan struct{})
+		aw.once[h] = &sync.Once{}
+	}
+	return aw
+}
+
+// c15AwaitBound: nothing else is pending in the process when the awaited delivery is due (the stage is sequential
+// and starts from the goroutine baseline), and Publish has started the awaited handler's goroutine before it
+// returned; the bound only has to cover the scheduling of one runnable goroutine on a loaded machine.
+const c15AwaitBound = 5 * time.Second
+
+const (
+	c15AwaitOK      = "await-other-handlers:entered-meanwhile"
+	c15AwaitExpired = "await-other-handlers:EXPIRED"
+	c15AwaitSkipped = "await-other-handlers:not-waited(another wait had expired)"
+)
 
 func (h *c15Handler) HandleEvent(p api.EventPayload) {
 	tok, ok := p.Data.(*c15Token)
@@ -157,8 +204,35 @@ func (h *c15Handler) HandleEvent(p api.EventPayload) {
 	act := cs.acts[h.idx][tok.id%len(cs.acts[h.idx])]
 	cs.mu.Lock()
 	onPublisher := cs.pubs[tok.id] != nil && cs.pubs[tok.id].goid == g
+	aw := cs.awaits[tok.id]
 	cs.mu.Unlock()
-	done := cs.perform(h, tok, act, onPublisher)
+	var done string
+	if aw != nil {
+		// an event of the mutual-wait stage: no other re-entrant action
+		if ch := aw.entered[h.idx]; ch != nil {
+			aw.once[h.idx].Do(func() { close(ch) })
+		}
+		if others := aw.waitFor[h.idx]; len(others) > 0 {
+			done = c15AwaitOK
+			deadline := time.After(c15AwaitBound)
+		wait:
+			for _, o := range others {
+				if aw.gaveUp.Load() {
+					done = c15AwaitSkipped
+					break
+				}
+				select {
+				case <-aw.entered[o]:
+				case <-deadline:
+					aw.gaveUp.Store(true)
+					done = c15AwaitExpired
+					break wait
+				}
+			}
+		}
+	} else {
+		done = cs.perform(h, tok, act, onPublisher)
+	}
 	exit := rig.Seq()
 	cs.mu.Lock()
 	cs.dels = append(cs.dels, c15Del{h: h.idx, tok: tok.id, entry: entry, exit: exit, goid: g, act: done})
@@ -259,6 +333,9 @@ func (cs *c15Case) publish(depth int, by string) {
 	cs.nextTok++
 	pub := &c15Pub{id: id, by: by}
 	cs.pubs[id] = pub
+	if depth == 0 && cs.nextAwait != nil {
+		cs.awaits[id], cs.nextAwait = cs.nextAwait, nil
+	}
 	cs.mu.Unlock()
 	tok := &c15Token{cs: cs, id: id, depth: depth, returned: make(chan struct{})}
 	payload := api.EventPayload{Ski: c15SkiPrefix + cs.c.Tag(), EventType: api.EventTypeDataChange, ChangeType: api.ElementChangeUpdate, Data: tok}
@@ -312,7 +389,7 @@ func c15Bus(c *rig.Ctx) {
 	c.Count("foreign_handlers_subscribed_at_start", int64(spine.VerifHandlerCount()))
 
 	cs := &c15Case{c: c, w: w, ent: ent, feat: feat, peer: peer, names: []string{"K1", "K2", "A1", "A2", "A3"},
-		pubs: map[int]*c15Pub{}, reentrant: map[string]int{}}
+		pubs: map[int]*c15Pub{}, reentrant: map[string]int{}, awaits: map[int]*c15Await{}}
 	for i := range cs.names {
 		cs.hs = append(cs.hs, &c15Handler{cs: cs, idx: i})
 	}
@@ -474,6 +551,83 @@ func c15Bus(c *rig.Ctx) {
 			return
 		}
 	}
+	// mutual-wait stage (every second case): the application handlers are subscribed anew in a drawn order, then
+	// one event is published during which an earlier subscribed one waits, inside HandleEvent, for a later one
+	var stage []string
+	if c.Index%2 == 0 {
+		for round, n := 0, 1+r.Intn(2); round < n; round++ {
+			var plan []c15PlanOp
+			for h := 2; h < len(cs.hs); h++ {
+				for _, l := range levelsOf(h) {
+					plan = append(plan, c15PlanOp{"unsub", l, h})
+				}
+			}
+			order := r.Perm(3)
+			for i := range order {
+				order[i] += 2
+			}
+			if r.Intn(3) == 0 {
+				order = order[:2] // the third application handler stays unsubscribed
+			}
+			for _, h := range order {
+				plan = append(plan, c15PlanOp{"sub", c15App, h})
+			}
+			modes := []string{"earlier-awaits-later", "mutual"}
+			if round > 0 {
+				modes = []string{"later-awaits-earlier", "later-awaits-earlier", "mutual", "earlier-awaits-later"}
+			}
+			aw := newC15Await(modes[r.Intn(len(modes))], order)
+			a, b := 0, 1 // positions in the subscription order, a < b
+			if len(order) == 3 {
+				switch r.Intn(3) {
+				case 1:
+					b = 2
+				case 2:
+					a, b = 1, 2
+				}
+			}
+			switch aw.mode {
+			case "earlier-awaits-later":
+				aw.waitFor[order[a]] = []int{order[b]}
+			case "later-awaits-earlier":
+				aw.waitFor[order[b]] = []int{order[a]}
+			default:
+				for _, h := range order {
+					for _, o := range order {
+						if o != h {
+							aw.waitFor[h] = append(aw.waitFor[h], o)
+						}
+					}
+				}
+			}
+			for _, o := range plan {
+				exec(o, "main")
+				stage = append(stage, o.String())
+			}
+			stage = append(stage, fmt.Sprintf("pub[%s %s]", aw.mode, aw.describe(cs.names)))
+			cs.mu.Lock()
+			cs.nextAwait = aw
+			cs.mu.Unlock()
+			exec(c15PlanOp{kind: "pub"}, "main")
+			if !rig.WaitQuiet(baseline, 30*time.Second) {
+				c.Inconclusive("goroutine count did not return to its baseline (%d, now %d) in the mutual-wait stage", baseline, runtime.NumGoroutine())
+				return
+			}
+			expired := false
+			cs.mu.Lock()
+			for _, d := range cs.dels {
+				if d.act == c15AwaitExpired {
+					expired = true
+				}
+			}
+			cs.mu.Unlock()
+			if expired {
+				break
+			}
+		}
+		shape = append(shape, stage...)
+	}
+	cs.stage = stage
 	cs.judge(dual, levelsOf, nPub, strings.Join(shape, ","), prologue, lists, epilogue)
 }
 
@@ -633,6 +787,57 @@ func (cs *c15Case) judge(dual bool, levelsOf func(int) []int, nPub int, shape st
 			}
 		}
 	}
+	// mutual-wait stage: every wait of an application handler for the entry of other application handlers of the
+	// same event must succeed
+	for _, id := range ids {
+		aw := cs.awaits[id]
+		if aw == nil || !cs.pubs[id].returned {
+			continue
+		}
+		del := map[int]*c15Del{}
+		for i, d := range delsByTok[id] {
+			if del[d.h] == nil {
+				del[d.h] = &delsByTok[id][i]
+			}
+		}
+		var ord []string
+		for _, h := range aw.order {
+			ord = append(ord, cs.names[h])
+		}
+		for _, x := range aw.order {
+			others := aw.waitFor[x]
+			dx := del[x]
+			if len(others) == 0 || dx == nil {
+				continue // dx == nil: the exactly-once pair above reports the missing delivery
+			}
+			c.Events(1)
+			switch dx.act {
+			case c15AwaitOK:
+				c.Count("app_handler_inside_HandleEvent_saw_other_application_handlers_receive_the_same_event", 1)
+				c.Count("mutual_wait:"+aw.mode, 1)
+				c.Seen("mutual_wait_shapes", fmt.Sprintf("%s, %d subscribed, position %d awaits %d other(s)", aw.mode, len(aw.order), c15Pos(aw.order, x), len(others)))
+			case c15AwaitExpired:
+				var after, meanwhile []string
+				for _, o := range others {
+					switch do := del[o]; {
+					case do == nil:
+						// never delivered: the exactly-once pair above reports the missing delivery
+					case do.entry > dx.exit:
+						after = append(after, fmt.Sprintf("%s entered at %d", cs.names[o], do.entry))
+					default:
+						meanwhile = append(meanwhile, cs.names[o])
+					}
+				}
+				if len(after) > 0 {
+					c.Violate("app/delivery-waits-for-other-application-handler", "application handlers subscribed in the order %v (%s); while handling e%d %s stayed inside HandleEvent [%d,%d] until %s would have entered HandleEvent for the same event, nothing else was pending in the process: "+
+						"that did not happen within %s; %v, after %s had returned. The delivery to an application handler waits for another application handler to return: they do not run asynchronously\n%s",
+						ord, aw.mode, id, cs.names[x], dx.entry, dx.exit, aw.names(cs.names, others), c15AwaitBound, after, cs.names[x], witness())
+				} else if len(meanwhile) == len(others) {
+					c.Inconclusive("e%d: the %s wait of %s [%d,%d] for the entry of %v expired although they entered before it left", id, c15AwaitBound, cs.names[x], dx.entry, dx.exit, meanwhile)
+				}
+			}
+		}
+	}
 	re := 0
 	for k, n := range cs.reentrant {
 		if k != "slow" {
@@ -663,8 +868,36 @@ func (cs *c15Case) judge(dual bool, levelsOf func(int) []int, nPub int, shape st
 	for _, l := range lists {
 		pl = append(pl, plan(l))
 	}
-	c.Sample(map[string]any{"handlers": cs.names, "A3_also_core": dual, "prologue": plan(prologue), "publishers": pl, "epilogue": plan(epilogue),
+	c.Sample(map[string]any{"handlers": cs.names, "A3_also_core": dual, "prologue": plan(prologue), "publishers": pl, "epilogue": plan(epilogue), "mutual_wait_stage": strings.Join(cs.stage, " "),
 		"log_head": strings.Split(cs.renderLocked(60), "\n")})
+}
+
+func (aw *c15Await) names(names []string, hs []int) string {
+	var l []string
+	for _, h := range hs {
+		l = append(l, names[h])
+	}
+	return strings.Join(l, "+")
+}
+
+// describe renders who waits for whom, in subscription order.
+func (aw *c15Await) describe(names []string) string {
+	var l []string
+	for _, h := range aw.order {
+		if o := aw.waitFor[h]; len(o) > 0 {
+			l = append(l, names[h]+" awaits "+aw.names(names, o))
+		}
+	}
+	return strings.Join(l, "; ")
+}
+
+func c15Pos(order []int, h int) int {
+	for i, x := range order {
+		if x == h {
+			return i + 1
+		}
+	}
+	return 0
 }
 
 // renderLocked renders the log in Seq order (cs.mu held).
